@@ -1387,11 +1387,29 @@ def c02d(chk):
                     cmp_ok = True
             if not cmp_ok:
                 continue
+            # the two shapes are paired axis by axis, in the same order: nothing but zip / iter / enumerate on the way
+            import iters as IT
+            ch_ = IT.receiver_chain(f, t["args"][0])
+            names_ = IT.chain_names(ch_)
+            sides_ = [IT.chain_names(x) for c_ in ch_ for x in c_[2]]
+            plain = [n for n in names_ if n not in ("zip", "iter", "enumerate")] == [] and all([n for n in sn if n not in ("iter",)] == [] for sn in sides_)
             for sb, s in an.switches_on_call_result(f, b):
                 none_t = an.edge_target(f.term(sb), 0)
                 if an.dominated_by_edge(f, sb, none_t, fb):
-                    size_ok = True
-                    why = "ok"
+                    size_ok = plain
+                    why = "ok" if plain else "the (from, to) pairs do not come from a plain zip of the two shapes (adaptors %s, zipped side %s)" % (names_, sides_)
+    if not size_ok and why.startswith("no find"):
+        # the same as a loop / all() / any(): from >= to established for every zipped axis where from_shape is called
+        import iters as IT
+        its_ = IT.iterations(chk.prog, f)
+        for gd in IT.forall_guards(chk.prog, f, its_, fb):
+            ch_ = gd["it"].chain()
+            names_ = IT.chain_names(ch_)
+            sides_ = [IT.chain_names(x) for c_ in ch_ for x in c_[2]]
+            plain = "zip" in names_ and [n for n in names_ if n not in ("zip", "iter", "enumerate")] == [] and all([n for n in sn if n not in ("iter",)] == [] for sn in sides_)
+            if plain and gd["cmp"] in (("Ge", (0,), (1,)), ("Ge", (1, 0), (1, 1))):
+                size_ok = True
+                why = "from >= to for every zipped axis (%s)" % gd["how"]
     chk.ob("C02.d", "Builder::build/from_shape<=no-axis-with-from<to", size_ok, f.loc(fb), why)
 
 
